@@ -1610,7 +1610,7 @@ Lemma Sm_alloc {R} t key (k : V -> prog R) lv :
   SAFEm t (Act (a_st_unl (node_id t (vser lv) key) 1 1) k) lv.
 Proof.
   intros Ht Hk H lv' Hle. pose proof Hle as (L1 & L2 & L3 & L4 & L5). rewrite <- L4. apply S_alloc; auto.
-  intros v w. apply H. repeat split; cbn; auto. now rewrite L4.
+  intros v w. apply (H v w). unfold vle. cbn [vkn vfz vown vser vst]. rewrite L4. auto 6.
 Qed.
 
 Lemma tlk_allocn t sn : forall n s xs s1, allocn n s = (xs, s1) -> tlk t sn s -> tlk t sn s1.
@@ -1652,7 +1652,7 @@ Proof.
   apply S_emit_gen with (lv1 := set_st lv' (@Idle SetSpec)).
   - intros g a tr [Hs Hil] Hv. exists (aatr a). split; [now apply IS_set_st|right].
     exists t. apply in_or_app. right. now left.
-  - apply Hc; [rewrite set_st_ser, (vle_ser _ _ Hle), Hser; exact Ht|reflexivity|apply vle_refl].
+  - apply (Hc s (set_st lv' (@Idle SetSpec))); [rewrite set_st_ser, (vle_ser _ _ Hle), Hser; exact Ht|reflexivity|apply vle_refl].
 Qed.
 
 Lemma T_op_contains {R} t fuel s k (cont : TL -> prog R) lv :
@@ -1662,7 +1662,7 @@ Proof.
   intros Ht Hst Hc. unfold op_contains. destruct (allocn 2 s) as [gs s1] eqn:Ea.
   pose proof (tlk_allocn _ _ _ _ _ _ Ea Ht) as Ht1.
   assert (Hfin : forall s2 ra lv1, tlk t (vser lv) s2 -> vle lv lv1 -> SAFEm t (finish s2 ra 0 cont) lv1).
-  { intros s2 ra lv1 Hs V. eapply T_finish_read; eauto; [apply (vle_ser _ _ V)|rewrite (vle_st _ _ V); exact Hst]. }
+  { intros s2 ra lv1 Hs V. eapply T_finish_read; eauto; [apply (vle_ser _ _ V)|rewrite (vle_st _ _ V); exact Hst|reflexivity]. }
   apply T_find_fastpath.
   - intros o lv1 V. apply (Sm_free_all_tlk t (vser lv)); [exact Ht1|]. intros s2 Hs2. destruct o; try (now apply Hfin).
     destruct (allocn _ s2) as [slots s3] eqn:Ea3. pose proof (tlk_allocn _ _ _ _ _ _ Ea3 Hs2) as Ht3.
@@ -1684,7 +1684,7 @@ Proof.
   { intros lv1 E. apply (Sm_free_all_tlk t sn); [exact Ht1|]. intros s' Hs'. eapply T_out_of_fuel; eauto. }
   assert (Hfin0 : forall s2 lv1, tlk t sn s2 -> vle lv lv1 -> SAFEm t (g_free_all s2 slots (fun s' => finish s' 0 0 cont)) lv1).
   { intros s2 lv1 Hs V. apply (Sm_free_all_tlk t sn); [exact Hs|]. intros s' Hs'.
-    eapply T_finish_read; eauto; [apply (vle_ser _ _ V)|rewrite (vle_st _ _ V); exact Hst]. }
+    eapply T_finish_read; eauto; [apply (vle_ser _ _ V)|rewrite (vle_st _ _ V); exact Hst|reflexivity]. }
   apply (T_find_position t sn); auto.
   - intros s2 o lv1 Hs2 V [Ho Hn] Hkn. destruct o as [ps|ps|]; try (now apply Hfin0).
     cbn [fp_post okn] in *. destruct Ho as [(X & _)|(Hp & Hcur)]; [discriminate|]. specialize (Hn eq_refl).
@@ -1699,9 +1699,9 @@ Proof.
     + destruct Kc as [E|Kc]; [congruence|exact Kc].
     + rewrite (vle_st _ _ V), Ekey. exact Hst.
     + rewrite Ekey. intros s4 lv2 Hs4 Hser2 Hst2. apply Sm_clear. apply (Sm_free_all_tlk t sn); [now apply tlk_free1|]. intros s' Hs'.
-      eapply T_finish_read; eauto.
+      eapply T_finish_read; eauto; try reflexivity.
     + rewrite Ekey. intros s4 lv2 Hs4 Hser2 Hst2. snx. apply Sm_clear. apply (Sm_free_all_tlk t sn); [now apply tlk_free1|]. intros s' Hs'.
-      eapply T_finish_lin; eauto.
+      eapply T_finish_lin; eauto; try reflexivity.
   - intros lv1 V. apply Hf. apply (vle_ser _ _ V).
 Qed.
 
@@ -1719,9 +1719,9 @@ Proof.
   apply (T_insert_loop t sn) with (v := w); auto.
   - split; [apply mk_node_isnode|unfold node_id; now apply mk_node_key].
   - intros s' lv1 Hs' Hser1 Hst1. apply (Sm_free_all_tlk t sn); [exact Hs'|]. intros s'' Hs''. apply Sm_clear.
-    eapply T_finish_read; eauto. now apply tlk_free1.
+    eapply T_finish_read; eauto; try reflexivity. now apply tlk_free1.
   - intros s' lv1 Hs' Hser1 Hst1. apply (Sm_free_all_tlk t sn); [exact Hs'|]. intros s'' Hs''. apply Sm_clear.
-    eapply T_finish_lin; eauto. now apply tlk_free1.
+    eapply T_finish_lin; eauto; try reflexivity. now apply tlk_free1.
   - intros lv1 Hser1. apply (Sm_free_all_tlk t sn); [exact Hs2|]. intros s'' Hs''. apply Sm_clear.
     eapply T_out_of_fuel; eauto. now apply tlk_free1.
 Qed.
